@@ -278,6 +278,7 @@ func RunCheck(id, tier, repo string, seed int, updateBaseline, quiet, writeEvide
 		units = append(units, eng.GenUnit(eng.Funcs[n]))
 	}
 	units = append(units, eng.constUnit(cfg)...)
+	units = append(units, eng.lemmaUnits(cfg)...)
 	genS := time.Since(genStart).Seconds()
 	var unsupported []string
 	for _, u := range units {
@@ -389,6 +390,9 @@ func RunCheck(id, tier, repo string, seed int, updateBaseline, quiet, writeEvide
 	sort.Strings(anchorsMissing)
 
 	outDir := filepath.Join(VerifDir, "out", id)
+	if repo == "/repo" {
+		os.RemoveAll(outDir) // replay files of earlier runs are stale
+	}
 	os.MkdirAll(outDir, 0o755)
 	for _, n := range knownHit {
 		line := fmt.Sprintf("KNOWN-FINDING: property=%s %s :: %s", id, n, known[n].Text)
@@ -565,7 +569,7 @@ func trustedAssumptions() []string {
 		"sequential consistency for lock-protected data; postconditions over monitor-protected state of several objects assume no interference between the atomic sections of one call",
 		"nil dereferences, index errors and failed type assertions are assumed absent in functions without 'safety on' (a panic is not a return, so postconditions say nothing about it)",
 		"strings are modelled as byte sequences in the SMT string theory; float64 arithmetic is uninterpreted",
-		"allocation never fails; no stack overflow",
+		"allocation never fails; no stack overflow; no slice is longer than 2^48 elements (address-space bound)",
 	}
 }
 
@@ -590,6 +594,33 @@ func (e *Engine) constUnit(cfg *PropCfg) []*Unit {
 			u.Unsupported = append(u.Unsupported, err.Error())
 		} else {
 			g.oblige("const", cc.Name, t, cc.Src)
+		}
+		out = append(out, u)
+	}
+	return out
+}
+
+// ---- lemmas: closed formulas over integers/booleans, proved once ----
+
+func (e *Engine) lemmaUnits(cfg *PropCfg) []*Unit {
+	var out []*Unit
+	for _, lm := range e.DB.Lemmas {
+		if !anyMatch(cfg.Lemmas, lm.Name) {
+			continue
+		}
+		u := &Unit{Name: shortName(lm.Pkg) + ".lemma", Sorts: newSorts(e), UsedContracts: map[string]bool{}}
+		g := &vcgen{eng: e, u: u, s: u.Sorts, st: &State{m: map[string]string{}}, pc: "true", varSort: map[string]string{}, declared: map[string]bool{},
+			embIDs: map[string]int{}, callOrd: map[string]int{}, freshObjs: map[string]bool{}}
+		g.stateVar("G.alloc", "Int")
+		env := &cenv{g: g, vars: map[string]cval{}, cur: g.st, ctx: "lemma " + lm.Name}
+		if p, ok := e.AllPkgs[lm.Pkg]; ok {
+			env.pkg = p.Types
+		}
+		t, err := env.EvalBool(lm.Expr)
+		if err != nil {
+			u.Unsupported = append(u.Unsupported, err.Error())
+		} else {
+			g.oblige("lemma", lm.Name, t, lm.Src)
 		}
 		out = append(out, u)
 	}
